@@ -16,6 +16,7 @@ import LyonVerif.Lemmas.PathMore
 import LyonVerif.Lemmas.PathCommands
 import LyonVerif.Lemmas.PathReversedModel
 import LyonVerif.Lemmas.AdaptersStored
+import LyonVerif.Lemmas.AdaptersStoredViews
 import LyonVerif.Model.Path.Polygon
 import LyonVerif.Model.Path.Commands
 
@@ -700,23 +701,170 @@ theorem slice_views_eq (p : PathData S) :
     p.asSlice.bind PathData.reversedWithAttributes = p.reversedWithAttributes := by
   simp [slice_eq]
 
-/-! ### `Path::transformed` (modelled by C16: `Adapt.applyTransform`, `Lemmas/AdaptersStored`) -/
+/-! ### `Path::transformed` (modelled by C16: `Adapt.applyTransform`, `Lemmas/AdaptersStored`)
 
-/-- The `iter` view of a transformed built path is the transformed `iter` view (C16
-`stored_transform_iter`, restated on C14's `stored`); the in-place walk reads and writes only
-inside the storage. -/
+`Adapt.applyTransform g p : Option (PathData S)`; `none` = some `self.points[…]` of the
+`IdIter` walk of `apply_transform` indexes outside the storage (Rust: panic).  Since lyon commit
+f78412c3 the walk also transforms the copy of the first endpoint that `end(true)` stores
+(finding C14-transformed-close-point-stale, fixed), and every view of the transformed path is
+the transformed view. -/
+
+/-- the transformed program (what `builder::Transformed` would have stored) is valid -/
+theorem validProg_transformed (g : Pt S → Pt S) (n : Nat) (prog : Prog S) (hv : ValidProg n prog) :
+    ValidProg n (prog.map (Adapt.mapCall g)) :=
+  ⟨by simpa [WellNested, Adapt.wellNestedFrom_map] using hv.1,
+   by rw [Adapt.attrsOk_map]; exact hv.2⟩
+
+/-- `Path::transformed` on a built path never indexes outside the storage, and yields, slot for
+slot, the path that building the transformed program yields (positions and control points
+transformed, attribute slots untouched, the copy of the first endpoint stored by `end(true)`
+transformed). -/
+theorem transformed_stored_eq (g : Pt S → Pt S) (n : Nat) (prog : Prog S) (hv : ValidProg n prog) :
+    Adapt.applyTransform g (stored n prog) = some (stored n (prog.map (Adapt.mapCall g))) :=
+  Adapt.stored_transform g n prog hv.1 hv.2
+
+/-- No out-of-bounds access in `apply_transform`: every `self.points[…]` read and write of the
+walk is in range (`applyTransform` is `some`), in particular the write added by f78412c3: for
+every `IdEvent::End { last, close: true, .. }` that `id_iter` yields, the index
+`last + (num_attributes + 1) / 2 + 1` is inside the storage. -/
+theorem transformed_no_oob (g : Pt S → Pt S) (n : Nat) (prog : Prog S) (hv : ValidProg n prog) :
+    (Adapt.applyTransform g (stored n prog)).isSome = true ∧
+    ∀ last first, Event.end_ last first true ∈ (stored n prog).idIter →
+      last + attribStride n + 1 < (stored n prog).points.length := by
+  have h := transformed_stored_eq g n prog hv
+  refine ⟨by simp [h], ?_⟩
+  simp only [Adapt.applyTransform, Option.map_eq_some_iff] at h
+  obtain ⟨q, hq, _⟩ := h
+  exact (Adapt.applyAll_close_in_bounds g _ _ _ q hq).2
+
+/-- The `iter` view of a transformed built path is the transformed `iter` view. -/
 theorem transformed_iter_eq (g : Pt S → Pt S) (n : Nat) (prog : Prog S) (hv : ValidProg n prog) :
-    (Adapt.applyTransform g (stored n prog)).iter
+    (Adapt.applyTransform g (stored n prog)).bind PathData.iter
       = (stored n prog).iter.map (fun evs => evs.map (Adapt.mapEvent g)) := by
   rw [iter_eq_spec n prog hv]
   exact Adapt.stored_transform_iter g n prog hv.1 hv.2
 
+/-- The `iter_with_attributes` view of a transformed built path: every position (endpoints and
+control points) transformed, every endpoint's attributes unchanged. -/
+theorem transformed_iter_with_attributes_eq (g : Pt S → Pt S) (n : Nat) (prog : Prog S)
+    (hv : ValidProg n prog) :
+    (Adapt.applyTransform g (stored n prog)).bind PathData.iterWithAttributes
+      = (stored n prog).iterWithAttributes.map
+          (fun evs => evs.map (Adapt.mapEvent (Adapt.mapA g))) := by
+  rw [transformed_stored_eq g n prog hv, Option.bind_some,
+    with_attributes_eq n _ (validProg_transformed g n prog hv), with_attributes_eq n prog hv,
+    Adapt.specEvents_aCall_map, Option.map_some]
 
-/-- NOT every view of a transformed path is the transformed view: `apply_transform` skips
-`IdEvent::End`, so the copy of the first endpoint stored by `end(true)` stays untransformed, and
-that slot is what `last_endpoint` reads.  `M 0 0 L 5 0 Z` translated by `(1, 1)`:
-`last_endpoint` answers `(0, 0)`, the transformed path's first point is `(1, 1)`.
-(Finding C14-transformed-close-point-stale; the positive part is `transformed_iter_eq`.) -/
+/-- `id_iter` of the transformed path is `id_iter` of the original (the verbs are untouched),
+and resolving its ids through the transformed path's position and attribute stores gives the
+transformed attribute-carrying events. -/
+theorem transformed_id_iter_eq (g : Pt S → Pt S) (n : Nat) (prog : Prog S) (hv : ValidProg n prog) :
+    (Adapt.applyTransform g (stored n prog)).map PathData.idIter = some (stored n prog).idIter ∧
+    (Adapt.applyTransform g (stored n prog)).bind
+        (fun q => resolveAll q.endpointA q.ctrlA q.idIter)
+      = (resolveAll (stored n prog).endpointA (stored n prog).ctrlA (stored n prog).idIter).map
+          (fun evs => evs.map (Adapt.mapEvent (Adapt.mapA g))) := by
+  refine ⟨?_, ?_⟩
+  · rw [transformed_stored_eq g n prog hv]
+    simp [stored, PathData.idIter, Adapt.emitVerbs_map]
+  · rw [transformed_stored_eq g n prog hv, Option.bind_some,
+      id_iter_resolves_attributes n _ (validProg_transformed g n prog hv),
+      id_iter_resolves_attributes n prog hv, Adapt.specEvents_aCall_map, Option.map_some]
+
+/-- The `reversed` views (with and without attributes) of a transformed built path are the
+transformed reversed views. -/
+theorem transformed_reversed_eq (g : Pt S → Pt S) (n : Nat) (prog : Prog S) (hv : ValidProg n prog) :
+    (Adapt.applyTransform g (stored n prog)).bind PathData.reversedWithAttributes
+      = (stored n prog).reversedWithAttributes.map
+          (fun evs => evs.map (Adapt.mapEvent (Adapt.mapA g))) ∧
+    (Adapt.applyTransform g (stored n prog)).bind PathData.reversed
+      = (stored n prog).reversed.map (fun evs => evs.map (Adapt.mapEvent g)) := by
+  have hv' := validProg_transformed g n prog hv
+  refine ⟨?_, ?_⟩
+  · rw [transformed_stored_eq g n prog hv, Option.bind_some, reversed_eq_spec n _ hv',
+      reversed_eq_spec n prog hv, Adapt.specEvents_aCall_map, Adapt.reverseEvents_map,
+      Option.map_some]
+  · rw [transformed_stored_eq g n prog hv, Option.bind_some, reversed_eq_spec_points n _ hv',
+      reversed_eq_spec_points n prog hv, Adapt.specEvents_aCall_map, Adapt.reverseEvents_map,
+      Option.map_some]
+    simp [List.map_map, Function.comp_def, Adapt.withPoints_fst_mapA]
+
+/-- `first_endpoint` of a transformed built path = the transformed first endpoint of the
+original, attributes unchanged (`None` stays `None`). -/
+theorem transformed_first_endpoint_eq (g : Pt S → Pt S) (n : Nat) (prog : Prog S)
+    (hv : ValidProg n prog) :
+    (Adapt.applyTransform g (stored n prog)).bind PathData.firstEndpoint
+      = (stored n prog).firstEndpoint.map (fun e => e.map (Adapt.mapA g)) := by
+  have key : ∀ (q : Prog S) (hq : ValidProg n q),
+      (Adapt.applyTransform g (stored n q)).bind PathData.firstEndpoint
+        = (stored n q).firstEndpoint.map (fun e => e.map (Adapt.mapA g)) := by
+    intro q hq
+    rw [transformed_stored_eq g n q hq, Option.bind_some]
+    cases q with
+    | nil =>
+      rw [List.map_nil, first_endpoint_eq n [] hq]; rfl
+    | cons c r =>
+      cases c with
+      | begin p a =>
+        rw [List.map_cons, Adapt.mapCall,
+          first_endpoint_eq n _ (by simpa [Adapt.mapCall] using validProg_transformed g n _ hq),
+          first_endpoint_eq n _ hq]
+        rfl
+      | _ => exact absurd hq.1 (by simp [WellNested, wellNestedFrom])
+  exact key prog hv
+
+/-- `last_endpoint` of a transformed built path = the transformed last endpoint of the original,
+attributes unchanged — also when the last sub-path is closed, where `last_endpoint` reads the
+copy of the first endpoint stored by `end(true)` (the case that failed before f78412c3). -/
+theorem transformed_last_endpoint_eq (g : Pt S → Pt S) (n : Nat) (prog : Prog S)
+    (hv : ValidProg n prog) :
+    (Adapt.applyTransform g (stored n prog)).bind PathData.lastEndpoint
+      = (stored n prog).lastEndpoint.map (fun e => e.map (Adapt.mapA g)) := by
+  rw [transformed_stored_eq g n prog hv, Option.bind_some,
+    last_endpoint_eq n _ (validProg_transformed g n prog hv), last_endpoint_eq n prog hv,
+    Adapt.specEvents_aCall_map, List.getLast?_map, Option.map_some]
+  cases (specEvents (prog.map aCall)).getLast? with
+  | none => rfl
+  | some e =>
+    cases e with
+    | end_ l f cl => cases cl <;> simp [Adapt.mapEvent]
+    | _ => simp [Adapt.mapEvent]
+
+/-- Every view of a transformed built path is the transformed view (the property's clause for
+`Path::transformed`, full strength): `iter`, `iter_with_attributes`, `id_iter` resolved through
+the stores, `reversed` (with and without attributes), `first_endpoint`, `last_endpoint`; no
+access outside the storage on the way. -/
+theorem transformed_views_eq (g : Pt S → Pt S) (n : Nat) (prog : Prog S) (hv : ValidProg n prog) :
+    ∃ q, Adapt.applyTransform g (stored n prog) = some q ∧
+      q.iter = (stored n prog).iter.map (fun evs => evs.map (Adapt.mapEvent g)) ∧
+      q.iterWithAttributes = (stored n prog).iterWithAttributes.map
+          (fun evs => evs.map (Adapt.mapEvent (Adapt.mapA g))) ∧
+      q.idIter = (stored n prog).idIter ∧
+      resolveAll q.endpointA q.ctrlA q.idIter
+        = (resolveAll (stored n prog).endpointA (stored n prog).ctrlA (stored n prog).idIter).map
+            (fun evs => evs.map (Adapt.mapEvent (Adapt.mapA g))) ∧
+      q.reversedWithAttributes = (stored n prog).reversedWithAttributes.map
+          (fun evs => evs.map (Adapt.mapEvent (Adapt.mapA g))) ∧
+      q.reversed = (stored n prog).reversed.map (fun evs => evs.map (Adapt.mapEvent g)) ∧
+      q.firstEndpoint = (stored n prog).firstEndpoint.map (fun e => e.map (Adapt.mapA g)) ∧
+      q.lastEndpoint = (stored n prog).lastEndpoint.map (fun e => e.map (Adapt.mapA g)) := by
+  have h := transformed_stored_eq g n prog hv
+  have h1 := transformed_iter_eq g n prog hv
+  have h2 := transformed_iter_with_attributes_eq g n prog hv
+  have h3 := transformed_id_iter_eq g n prog hv
+  have h4 := transformed_reversed_eq g n prog hv
+  have h5 := transformed_first_endpoint_eq g n prog hv
+  have h6 := transformed_last_endpoint_eq g n prog hv
+  rw [h] at h1 h2 h3 h4 h5 h6
+  simp only [Option.bind_some, Option.map_some, Option.some.injEq] at h1 h2 h3 h4 h5 h6
+  exact ⟨_, h, h1, h2, h3.1, h3.2, h4.1, h4.2, h5, h6⟩
+
+/- Before lyon commit f78412c3 `apply_transform` skipped every `IdEvent::End`, the copy of the
+first endpoint stored by `end(true)` stayed untransformed, and `last_endpoint` (which reads that
+slot) of a transformed path whose last sub-path is closed answered the UNtransformed point.
+The model mirrored that and this witness was kernel-checked on it (`applyTransform` was total
+then), next to `transformed_views_partial` (= `transformed_iter_eq` only):
+
 theorem transformed_views_witness :
     let prog : Prog Int := [.begin (0, 0) [], .line (5, 0) [], .end_ true]
     let g : Pt Int → Pt Int := fun p => (p.1 + 1, p.2 + 1)
@@ -726,14 +874,27 @@ theorem transformed_views_witness :
       = some [Event.begin (1, 1), Event.line (1, 1) (6, 1), Event.end_ (6, 1) (1, 1) true] := by
   decide
 
-/-- What does hold of `Path::transformed` in the current code (= `transformed_iter_eq`): the
-`iter` view of the transformed path is the transformed `iter` view.  Missing for "every view":
-`last_endpoint` when the last sub-path is closed (`transformed_views_witness`). -/
-theorem transformed_views_partial {S : Type} [Inhabited S] (g : Pt S → Pt S) (n : Nat) (prog : Prog S)
-    (hv : ValidProg n prog) :
-    (Adapt.applyTransform g (stored n prog)).iter
-      = (stored n prog).iter.map (fun evs => evs.map (Adapt.mapEvent g)) :=
-  transformed_iter_eq g n prog hv
+The same input on the repaired model (the oracle class `closed-last-sub-path` stays active): -/
+
+/-- the former witness `M 0 0 L 5 0 Z` translated by `(1, 1)`, computed on the model:
+`last_endpoint` of the transformed path is now `(1, 1)` -/
+example :
+    let prog : Prog Int := [.begin (0, 0) [], .line (5, 0) [], .end_ true]
+    let g : Pt Int → Pt Int := fun p => (p.1 + 1, p.2 + 1)
+    (stored 0 prog).lastEndpoint = some (some ((0, 0), [])) ∧
+    (Adapt.applyTransform g (stored 0 prog)).bind PathData.lastEndpoint = some (some ((1, 1), [])) ∧
+    (Adapt.applyTransform g (stored 0 prog)).bind PathData.iter
+      = some [Event.begin (1, 1), Event.line (1, 1) (6, 1), Event.end_ (6, 1) (1, 1) true] := by
+  decide
+
+/-- with attributes (odd count, padded) and two sub-paths, the second closed: the storage after
+`transformed` — the last two slots are the transformed copy of `(7, 7)` and its attribute -/
+example :
+    (Adapt.applyTransform (fun p : Pt Int => (p.1 + 1, p.2 + 2))
+        (stored 1 [.begin (0, 0) [1], .end_ false, .begin (7, 7) [2], .line (9, 7) [3],
+          .end_ true])).map (·.points)
+      = some [(1, 2), (1, 0), (8, 9), (2, 0), (10, 9), (3, 0), (8, 9), (2, 0)] := by
+  decide
 
 
 /-! ### the raw-pointer code of `lyon_path` and which theorem covers each of its reads
@@ -749,10 +910,11 @@ theorem transformed_views_partial {S : Type} [Inhabited S] (g : Pt S → Pt S) (
 | `interpolated_attributes` (path.rs:1279) | `from_raw_parts(&points[idx].x, num_attributes)` after `assert!(idx + stride <= len)` | `interpolatedAttributes` | `Path/PathSlice::attributes`, `AttributeStore::get`, `first/last_endpoint`, `Reversed::next` | `no_oob_attributes`, `no_oob_reversed`, `no_oob` (first), `no_oob_reversed` (last) |
 | `CmdIter::new` / `CmdIter::next` (commands.rs:98, 108) | `ptr.add(len)`, `*self.ptr` guarded by `ptr == end` | list consumption in `Cmd.iterGo` / `Cmd.eventsGo` | `commands::{Iter, Events, PointEvents}` | `no_oob_commands` |
 
-`IdIter`, `Reversed`, `PathCommandsSlice::{event, next_event_id_*}`, `PathBuffer::get` and the
-polygon types use checked indexing only (a bad index panics, it does not read outside); their
-indices are nevertheless shown in range (`id_iter_resolves*`, `no_oob_reversed`,
-`no_oob_commands`, `path_buffer_get*`, `polygon_views_agree`).  In the model each of the reads
+`IdIter`, `Reversed`, `Path::apply_transform`, `PathCommandsSlice::{event, next_event_id_*}`,
+`PathBuffer::get` and the polygon types use checked indexing only (a bad index panics, it does
+not read outside); their indices are nevertheless shown in range (`id_iter_resolves*`,
+`no_oob_reversed`, `transformed_no_oob`, `no_oob_commands`, `path_buffer_get*`,
+`polygon_views_agree`).  In the model each of the reads
 above is an `Option`; the theorems below say: on storage produced by a builder from a valid
 program, every one of them is `some`. -/
 
@@ -884,5 +1046,14 @@ example : ∀ q ∈ [exampleProg, exampleProg], ValidProg 3 q := by
 example : ((stored 3 exampleProg).reversedIntoPath.bind PathData.reversedWithAttributes)
     = (stored 3 exampleProg).iterWithAttributes := by decide
 
+/-- `transformed_views_eq` instantiated on the example (first sub-path closed, three attributes) -/
+example : ∃ q, Adapt.applyTransform (fun p : Pt Int => (p.1 + 3, p.2 - 1)) (stored 3 exampleProg) = some q ∧
+    q.lastEndpoint = (stored 3 exampleProg).lastEndpoint.map (fun e => e.map (Adapt.mapA fun p => (p.1 + 3, p.2 - 1))) := by
+  obtain ⟨q, h, _, _, _, _, _, _, _, hl⟩ :=
+    transformed_views_eq (fun p : Pt Int => (p.1 + 3, p.2 - 1)) 3 exampleProg ⟨by decide, by decide⟩
+  exact ⟨q, h, hl⟩
+/-- … and computed: the copy of `(0, 0)` stored by the close, at index 10 = last (7) + stride (2) + 1 -/
+example : ((Adapt.applyTransform (fun p : Pt Int => (p.1 + 3, p.2 - 1)) (stored 3 exampleProg)).map
+    fun q => q.points[10]?) = some (some (3, -1)) := by decide
 
 end Lyon.C14
